@@ -148,8 +148,8 @@ def rule_seq(repo: Repo, rep: Report) -> int:
     rem = repo.method(cb, "remove_step")
     ok = any(match(n_, "self.steps.pop(index)") is not None for n_ in ast.walk(rem.node)) or any(match(n_, "del self.steps[index]") is not None for n_ in ast.walk(rem.node))
     pops = [n_ for n_ in ast.walk(rem.node) if isinstance(n_, ast.Call) and attr_chain(n_.func) == "self.steps.pop"]
-    wrong = any(not (p_.args and unparse(p_.args[0]) == "index") for p_ in pops)
-    rep.shape(ok, wrong, "SEQ-LIST", rem, "remove_step pops self.steps[index]", "exactly the indexed stage is removed", "remove_step does not remove exactly self.steps[index]")
+    wrong = any(not (p_.args and unparse(p_.args[0]) == "index") for p_ in pops) or any(isinstance(n_, ast.Call) and attr_chain(n_.func) == "self.steps.remove" for n_ in ast.walk(rem.node))
+    rep.shape(ok, wrong, "SEQ-LIST", rem, "remove_step pops self.steps[index]", "exactly the indexed stage is removed", "remove_step does not remove exactly self.steps[index] (list.remove deletes the FIRST equal stage: when a stage object occurs more than once another occurrence disappears and the declared order changes)")
     return n + 2
 
 
